@@ -22,25 +22,47 @@ Inductive grant (s : st) (E : env) (text : str) (z : Z) (c : str) : Prop :=
     (C03.Model.isAntiCapability c = true \/ check s E c = Ok true) ->   (* "capabilities you don't have" rule *)
     C03.Model.ucs_add (caps u) c = Ok cs ->
     grant s E text z c
-| GChan ch n craw w u cs :
+| GChan args ch n craw w u cs :
     ignored s E = false ->
-    tokens text = Some (chan_add_words ++ [ch; n; craw]) ->       (* `channel capability add <ch> <n> <craw>` *)
+    tokens text = Some (chan_add_words ++ args) ->                (* `channel capability add [<ch>] <n> <craw>` *)
     gate_blocked s E chan_add_words = false ->
-    C03.Model.isChannel ch = true ->
-    check s E (ch ++ [COMMA] ++ OP) = Ok true ->                  (* the 'op' converter: caller holds #ch,op *)
+    conv_op s E args = Some (ch, [n; craw]) ->                    (* 'op' converter: ch is the first argument if that is a
+                                                                     channel name, else the channel the message was said in;
+                                                                     and checkCapability(sender, "<ch>,op") is True (conv_op_spec) *)
     conv_other s E n = Some u -> aid u = z ->
     C16.Model.split_ws craw = [w] ->
     c = C03.Model.fold (ch ++ [COMMA] ++ w) ->                    (* only a capability of that channel *)
     C03.Model.ucs_add (caps u) (ch ++ [COMMA] ++ w) = Ok cs ->
     grant s E text z c.
 
+Lemma holds_check s E c : holds s E c = true -> check s E c = Ok true.
+Proof. unfold holds. destruct (check s E c) as [[|]|]; try discriminate. reflexivity. Qed.
+
 (* the admin gate contains the test that the caller does not hold -admin (a default capability: only
    accounts with the admin capability, or owners, pass) *)
 Lemma admin_gate_means s E : gate_blocked s E admin_add_words = false -> holds s E (DASH :: ADMIN) = false.
 Proof.
-  unfold gate_blocked. intro H. cbn in H.
+  unfold gate_blocked. intro H. cbn [gate_names admin_add_words last prefixes existsb app] in H.
   repeat match type of H with (_ || _ = false) => apply orb_false_iff in H as [? H] end.
-  assumption.
+  match goal with K : name_blocked s E [97; 100; 109; 105; 110] = false |- _ => unfold name_blocked in K; apply orb_false_iff in K as [K _]; exact K end.
+Qed.
+
+(* what the 'op' converter established *)
+Lemma conv_op_spec s E args ch r :
+  conv_op s E args = Some (ch, r) ->
+  C03.Model.isChannel ch = true /\ check s E (ch ++ [COMMA] ++ OP) = Ok true /\
+  (args = ch :: r \/ (e_chan E = Some ch /\ args = r)).
+Proof.
+  unfold conv_op. intro H.
+  destruct (match args with [] => _ | _ :: _ => _ end) as [[ch0 r0]|] eqn:P; [|discriminate].
+  destruct (C03.Model.isChannel ch0) eqn:K; [|discriminate].
+  destruct (holds s E (ch0 ++ [COMMA] ++ OP)) eqn:K2; [|discriminate].
+  inversion H; subst ch0 r0. split; [exact K|]. split; [apply holds_check; exact K2|].
+  destruct args as [|x xs].
+  - destruct (e_chan E) as [c0|]; [|discriminate]. inversion P; subst. right. auto.
+  - destruct (C03.Model.isChannel x).
+    + inversion P; subst. left. reflexivity.
+    + destruct (e_chan E) as [c0|]; [|discriminate]. inversion P; subst. right. auto.
 Qed.
 
 (* ---- command table ---- *)
@@ -92,8 +114,6 @@ Proof.
     + right. apply seq_eqb_eq in K. exact K.
 Qed.
 
-Lemma holds_check s E c : holds s E c = true -> check s E c = Ok true.
-Proof. unfold holds. destruct (check s E c) as [[|]|]; try discriminate. reflexivity. Qed.
 
 (* ---- which commands write capability sets, and when ---- *)
 Ltac crackD D :=
@@ -133,12 +153,6 @@ Lemma ccapadd_grant s E text args a cs :
 Proof.
   intros Hi Ht Hg D c Hc. unfold d_ccap in D.
   destruct (conv_op s E args) as [[ch r]|] eqn:CO; [|discriminate].
-  assert (Hop : exists r0, args = ch :: r0 /\ r = r0 /\ C03.Model.isChannel ch = true /\ holds s E (ch ++ [COMMA] ++ OP) = true).
-  { unfold conv_op in CO. destruct args as [|x xs]; [discriminate|].
-    destruct (C03.Model.isChannel x) eqn:K; [|discriminate].
-    destruct (holds s E (x ++ [COMMA] ++ OP)) eqn:K2; [|discriminate]. inversion CO; subst.
-    exists r. auto. }
-  destruct Hop as (r0 & Ea & Er & Hch & Hh). subst r0 args.
   destruct r as [|n [|craw [|x r]]]; try discriminate.
   destruct (conv_other s E n) as [u|] eqn:Cu; [|discriminate].
   destruct (is_capname craw); [|discriminate].
@@ -146,8 +160,7 @@ Proof.
   destruct (C03.Model.ucs_add (caps u) (ch ++ [COMMA] ++ w)) as [cs'|] eqn:Ad; [|discriminate].
   inversion D; subst a cs'; clear D.
   destruct (ucs_add_mem _ _ _ _ Ad Hc) as [K|K]; [left; exact K|right]. subst c.
-  apply (GChan s E text (aid u) _ ch n craw w u cs); try assumption; try reflexivity.
-  apply holds_check; exact Hh.
+  apply (GChan s E text (aid u) _ args ch n craw w u cs); try assumption; try reflexivity.
 Qed.
 
 Lemma ccap_other k s E args a cs :
@@ -202,7 +215,8 @@ Proof.
   destruct (gate_blocked s E ws) eqn:Hg; [discriminate|].
   destruct (find_cmd_spec _ _ _ _ _ Hf) as [Hin Etoks]. subst toks.
   intros c Hc.
-  destruct k; simpl in D;
+  unfold decide in D. destruct (needs_private k && negb (in_private E)); [discriminate|].
+  destruct k; cbv iota in D;
     try (exfalso; first [ eapply no_caps_register; eassumption | eapply no_caps_unregister; eassumption
                         | eapply no_caps_changename; eassumption | eapply no_caps_identify; eassumption
                         | eapply no_caps_unidentify; eassumption | eapply no_caps_hostadd; eassumption
@@ -355,30 +369,30 @@ Proof.
     + match goal with K : _ || _ = true |- _ => apply orb_true_iff in K as [K|K]; [left; exact K|right; apply holds_check; exact K] end.
   - destruct (strip_words chan_add_words toks) as [args|] eqn:Sc; [|discriminate].
     apply strip_words_app in Sc. subst toks.
-    destruct args as [|ch [|n [|craw [|x r]]]]; try discriminate.
-    unfold grantb_chan in H.
-    repeat match type of H with (_ && _ = true) => apply andb_true_iff in H as [H ?] end.
-    apply negb_true_iff in H.
+    unfold grantb_chan in H. apply andb_true_iff in H as [Hg H]. apply negb_true_iff in Hg.
+    destruct (conv_op s E args) as [[ch r]|] eqn:CO; [|discriminate].
+    destruct r as [|n [|craw [|x r]]]; try discriminate.
     destruct (conv_other s E n) as [u|] eqn:Cu; [|discriminate].
     destruct (C16.Model.split_ws craw) as [|w [|w2 ws2]] eqn:Sp; try discriminate.
-    match goal with K : _ && _ = true |- _ => apply andb_true_iff in K as [K K3]; apply andb_true_iff in K as [K1 K2] end.
+    apply andb_true_iff in H as [H K3]. apply andb_true_iff in H as [K1 K2].
     apply seq_eqb_eq in K2. subst c.
     destruct (C03.Model.ucs_add (caps u) (ch ++ [COMMA] ++ w)) as [cs|] eqn:Ad; [|discriminate].
-    apply (GChan s E text z _ ch n craw w u cs); try assumption; try reflexivity.
-    + apply holds_check. assumption.
-    + apply Z.eqb_eq. assumption.
+    apply (GChan s E text z _ args ch n craw w u cs); try assumption; try reflexivity.
+    apply Z.eqb_eq. assumption.
 Qed.
+
+Lemma strip_admin_chan a : strip_words admin_add_words (chan_add_words ++ a) = None.
+Proof. reflexivity. Qed.
 
 Lemma grantb_complete s E text z c : grant s E text z c -> grantb s E text z c = true.
 Proof.
-  intros [n craw u cs Hi Ht Hg Cu Hz Ec Tk Ow En Ad | ch n craw w u cs Hi Ht Hg Hch Hop Cu Hz Sp Ec Ad];
+  intros [n craw u cs Hi Ht Hg Cu Hz Ec Tk Ow En Ad | args ch n craw w u cs Hi Ht Hg CO Cu Hz Sp Ec Ad];
     unfold grantb; rewrite Hi, Ht; cbn [negb andb].
   - rewrite strip_words_self. unfold grantb_admin. rewrite Hg, Cu. cbn [negb andb].
     subst c z. rewrite Z.eqb_refl, seq_eqb_refl, Tk, Ad. cbn [andb is_ok].
     apply seq_eqb_neq in Ow. rewrite Ow. cbn [negb andb]. rewrite andb_true_r.
     destruct En as [K|K]; [rewrite K; reflexivity|rewrite (check_holds _ _ _ K); apply orb_true_r].
-  - replace (strip_words admin_add_words (chan_add_words ++ [ch; n; craw])) with (@None (list str)) by reflexivity.
-    rewrite strip_words_self. unfold grantb_chan. rewrite Hg, Hch, (check_holds _ _ _ Hop), Cu, Sp. cbn [negb andb].
+  - rewrite strip_admin_chan, strip_words_self. unfold grantb_chan. rewrite Hg, CO, Cu, Sp. cbn [negb andb].
     subst c z. rewrite Z.eqb_refl, seq_eqb_refl, Ad. reflexivity.
 Qed.
 
@@ -390,13 +404,16 @@ Proof. split; [apply grantb_sound|apply grantb_complete]. Qed.
    that very channel, the one for which the caller's "<ch>,op" was checked — never of another channel *)
 Lemma grant_chan_scope s E text z c rest :
   grant s E text z c -> tokens text = Some (chan_add_words ++ rest) ->
-  exists ch w r, rest = ch :: r /\ C03.Model.isChannel ch = true /\ check s E (ch ++ [COMMA] ++ OP) = Ok true /\
+  exists ch w r, conv_op s E rest = Some (ch, r) /\
+                 (rest = ch :: r \/ (e_chan E = Some ch /\ rest = r)) /\
+                 C03.Model.isChannel ch = true /\ check s E (ch ++ [COMMA] ++ OP) = Ok true /\
                  C03.Model.split_comma c = Some (C03.Model.fold ch, C03.Model.fold w).
 Proof.
-  intros [n craw u cs Hi Ht Hg Cu Hz Ec Tk Ow En Ad | ch n craw w u cs Hi Ht Hg Hch Hop Cu Hz Sp Ec Ad] Hr.
+  intros [n craw u cs Hi Ht Hg Cu Hz Ec Tk Ow En Ad | args ch n craw w u cs Hi Ht Hg CO Cu Hz Sp Ec Ad] Hr.
   - rewrite Ht in Hr. inversion Hr.
   - rewrite Ht in Hr. inversion Hr as [Hr']. subst rest.
-    exists ch, w, [n; craw]. split; [reflexivity|]. split; [exact Hch|]. split; [exact Hop|].
+    destruct (conv_op_spec _ _ _ _ _ CO) as (Hch & Hop & Hsrc).
+    exists ch, w, [n; craw]. split; [exact CO|]. split; [exact Hsrc|]. split; [exact Hch|]. split; [exact Hop|].
     subst c. unfold C03.Model.split_comma.
     change (ch ++ [COMMA] ++ w) with (ch ++ COMMA :: w). rewrite C03.Fold.fold_app.
     change (C03.Model.fold (COMMA :: w)) with (C03.Model.fold_char COMMA :: C03.Model.fold w).
